@@ -9,6 +9,43 @@ def c07(ctx, res):
                         "tagged value codec and token dictionary of the harness"]
 
 
+def c08(ctx, res):
+    cfg = "MC_C08_quick.cfg" if ctx.quick else "MC_C08_thorough.cfg"
+    ctx.gen_replay(res, "vfk", "MC_C08.tla", cfg)
+    res.assumptions += ["results of key searches are compared as bags (Go map iteration order)",
+                        "sub-key strings are rendered from abstract conditions by the harness, under both field separators"]
+
+
+def c09(ctx, res):
+    cfg = "MC_C09_quick.cfg" if ctx.quick else "MC_C09_thorough.cfg"
+    ctx.gen_replay(res, "leaf", "MC_C09.tla", cfg)
+    res.assumptions += ["leaf collections are compared as bags", "resolution clause applied to Maps without empty keys and without directly nested lists, [N] notation"]
+
+
+def c10(ctx, res):
+    cfg = "MC_C10_quick.cfg" if ctx.quick else "MC_C10_thorough.cfg"
+    ctx.gen_replay(res, "upd", "MC_C10.tla", cfg)
+    res.assumptions += ["the new value is fresh (occurs nowhere in the Map), so every replacement is visible to the frame theorem"]
+
+
+def c11(ctx, res):
+    cfg = "MC_C11_quick.cfg" if ctx.quick else "MC_C11_thorough.cfg"
+    ctx.gen_replay(res, "mut", "MC_C11.tla", cfg)
+    res.assumptions += ["SetValueForPath whose parent is reached through a list is outside the property's domain: only checked for panics"]
+
+
+def c12(ctx, res):
+    cfg = "MC_C12_quick.cfg" if ctx.quick else "MC_C12_thorough.cfg"
+    ctx.gen_replay(res, "newmap", "MC_C12.tla", cfg)
+    res.assumptions += ["content compared up to list order when an old path has a wildcard (map iteration order)",
+                        "sharing of *values* between result and receiver is inherent to Go maps and not claimed absent; only modification by the NewMap call itself is checked"]
+
+
 PROPS = {
+    "C10": c10,
+    "C11": c11,
+    "C12": c12,
+    "C08": c08,
+    "C09": c09,
     "C07": c07,
 }
